@@ -39,15 +39,15 @@ type Node struct {
 	Bare bool
 }
 
-func lit(s string) *Node            { return &Node{K: kLit, S: s} }
-func clit(s string) *Node           { return &Node{K: kLit, S: s, NoHoist: true} }
-func grp(i int) *Node               { return &Node{K: kGrp, I: i} }
-func key(s string) *Node            { return &Node{K: kKey, S: s} }
-func argn(i int) *Node              { return &Node{K: kArg, I: i} }
-func elem(i int) *Node              { return &Node{K: kElem, I: i} }
+func lit(s string) *Node              { return &Node{K: kLit, S: s} }
+func clit(s string) *Node             { return &Node{K: kLit, S: s, NoHoist: true} }
+func grp(i int) *Node                 { return &Node{K: kGrp, I: i} }
+func key(s string) *Node              { return &Node{K: kKey, S: s} }
+func argn(i int) *Node                { return &Node{K: kArg, I: i} }
+func elem(i int) *Node                { return &Node{K: kElem, I: i} }
 func call(f string, a ...*Node) *Node { return &Node{K: kCall, S: f, A: a} }
-func cat(a ...*Node) *Node          { return &Node{K: kCat, A: a} }
-func lam(a ...*Node) *Node          { return &Node{K: kLam, A: a, NoHoist: true} }
+func cat(a ...*Node) *Node            { return &Node{K: kCat, A: a} }
+func lam(a ...*Node) *Node            { return &Node{K: kLam, A: a, NoHoist: true} }
 
 // Form is a math formula tree for {! ..}.
 type Form struct {
